@@ -65,6 +65,7 @@ type Merged struct {
 	Inconcl     []string
 	Notes       map[string]string
 	Groups      map[string]int64
+	GroupSecs   map[string]float64 // CPU-side wall seconds per case group, summed over workers
 	Exhaustive  map[string]bool
 	Extra       map[string]any
 	Dir         string // run directory (worker logs, race detector logs, ...)
@@ -171,7 +172,7 @@ func RunParent(spec *Spec, opt Options) int {
 
 	m := &Merged{Spec: spec, Tier: opt.Tier, Seed: opt.Seed, Counters: map[string]int64{}, Max: map[string]float64{},
 		Distinct: map[uint64]struct{}{}, Sets: map[string]map[string]struct{}{}, Notes: map[string]string{},
-		Groups: map[string]int64{}, Exhaustive: map[string]bool{}, Extra: map[string]any{}, Dir: dir}
+		Groups: map[string]int64{}, GroupSecs: map[string]float64{}, Exhaustive: map[string]bool{}, Extra: map[string]any{}, Dir: dir}
 	exhaustCount := map[string]int{}
 	deadline := time.After(watchdog)
 	timedOut := false
@@ -207,6 +208,11 @@ func RunParent(spec *Spec, opt Options) int {
 				continue
 			}
 			cur, _ := os.ReadFile(w.cur)
+			if i := strings.Index(string(cur), CurEndMarker); i >= 0 {
+				cur = cur[:i]
+			} else {
+				cur = nil // no complete record
+			}
 			tail := tailFile(w.log, 6000)
 			if len(cur) > 0 {
 				id := strings.SplitN(string(cur), "\n", 2)[0]
@@ -260,6 +266,9 @@ func RunParent(spec *Spec, opt Options) int {
 		}
 		for k, v := range r.Groups {
 			m.Groups[k] += v
+		}
+		for k, v := range r.GroupSecs {
+			m.GroupSecs[k] += v
 		}
 		for k, v := range r.Exhaustive {
 			if v {
@@ -423,6 +432,11 @@ func writeEvidence(m *Merged, opt Options, wall float64, fresh int, knownSigs []
 		"events_observed":     m.Counters,
 		"case_groups":         m.Groups,
 	}
+	gs := map[string]float64{}
+	for k, v := range m.GroupSecs {
+		gs[k] = float64(int(v*100)) / 100
+	}
+	cov["case_group_worker_seconds"] = gs
 	if len(m.Max) > 0 {
 		cov["maxima"] = m.Max
 	}
